@@ -906,7 +906,8 @@ impl Iterator for Iter<'_> {
 
     #[inline(always)]
     fn size_hint(&self) -> (usize, Option<usize>) {
-        (self.bv.len(), Some(self.bv.len()))
+        let n = self.bv.len() - self.pos;
+        (n, Some(n))
     }
 }
 
